@@ -157,6 +157,16 @@ def main(argv=None):
                clusters_new=[v['key'] for v in new_viol],
                known_findings_matched={fid: n for fid, (f, n, key) in known_hits.items()},
                shards=len(specs), inconclusive_reasons=inconclusive)
+    seen = agg['sets'].get('control_bit_values_seen')
+    if seen:
+        # per control register the bits the stepped pre-states held with BOTH values (a dimension the workload varied),
+        # as a mask; everything else was constant in this run
+        both = {}
+        for item in seen:
+            reg_, rest = item.split(':')
+            bit_, val_ = rest.split('=')
+            both.setdefault(reg_, [0, 0])[int(val_)] |= 1 << int(bit_)
+        cov['control_register_bits_varied'] = {reg_: '%#010x' % (z & o) for reg_, (z, o) in sorted(both.items())}
     cov.update(extra)
     ev = dict(property_id=pid, tier=a.tier, seed=seed, level=getattr(mod, 'LEVEL', 'exploration'), coverage=cov,
               assumptions=getattr(mod, 'ASSUMPTIONS', []), wall_s=round(wall, 2), violations=len(new_viol))
